@@ -164,16 +164,39 @@ def r1_columns(ctx, rep):
     cols = cards.columns(exprs)
     ob("continuation column is column 6", cols == {(6, 6)}, "the continuation test reads column 6",
        f"the continuation test reads columns {sorted(cols)}", an)
-    txt = " ".join(ast.unparse(e) for e in exprs)
     top = _attr_value(an, "isContinuation")[0]
-    # not (blank or '0') and regular   ==   (not blank) and (!= '0') and regular
-    neg_form = any(isinstance(n, ast.UnaryOp) and isinstance(n.op, ast.Not) and ".isspace()" in ast.unparse(n.operand)
-                   and "'0'" in ast.unparse(n.operand) for n in ast.walk(top))
-    conj_form = "not " in ast.unparse(top) and ".isspace()" in ast.unparse(top) and "!= '0'" in ast.unparse(top)
-    ok = (neg_form or conj_form) and "is_regular" in txt and isinstance(top, ast.BoolOp) and isinstance(top.op, ast.And)
+    # decided on the truth table of the expression over the atoms blank(col 6), zero(col 6), regular line: every equivalent
+    # spelling (De Morgan, reordered conjuncts, `not in`) is accepted
+    def atom(e):
+        if isinstance(e, ast.Call) and isinstance(e.func, ast.Attribute) and e.func.attr == "isspace" and not e.args:
+            return ("blank", True)
+        if isinstance(e, ast.Compare) and len(e.ops) == 1 and isinstance(e.comparators[0], ast.Constant):
+            v = e.comparators[0].value
+            if isinstance(e.ops[0], (ast.Eq, ast.NotEq)) and v in ("0", " "):
+                return ("zero" if v == "0" else "blank", isinstance(e.ops[0], ast.Eq))
+        if isinstance(e, ast.Compare) and len(e.ops) == 1 and isinstance(e.ops[0], (ast.In, ast.NotIn)):
+            try:
+                vals = set(ast.literal_eval(e.comparators[0]))
+            except Exception:
+                return None
+            if vals == {" ", "0"}:
+                return ("blank_or_zero", isinstance(e.ops[0], ast.In))
+        if isinstance(e, (ast.Attribute, ast.Name)) and ast.unparse(e).split(".")[-1] == "is_regular":
+            return ("regular", True)
+        return None
+    tt = astq.truth_table(top, atom)
+    if tt is None:
+        raise AnalysisError(f"fixed2free2: isContinuation = `{ast.unparse(top)[:80]}` is not a boolean combination of the column-6 tests")
+    names, table = tt
+    def want(env):
+        boz = env.get("blank_or_zero", False) or env.get("blank", False) or env.get("zero", False)
+        return (not boz) and env.get("regular", True)
+    feasible = [bits for bits in table if not (dict(zip(names, bits)).get("blank") and dict(zip(names, bits)).get("zero"))]
+    wrong = [dict(zip(names, bits)) for bits in feasible if table[bits] != want(dict(zip(names, bits)))]
+    ok = not wrong and "regular" in names and ("blank" in names or "blank_or_zero" in names) and ("zero" in names or "blank_or_zero" in names)
     ob("continuation iff column 6 is neither blank nor zero", ok,
        "isContinuation = not (blank or '0') and regular line",
-       f"isContinuation = {ast.unparse(top)}: a card with blank/0 in column 6 (or another character) is classified wrongly", an)
+       f"isContinuation = {ast.unparse(top)}: wrong for {wrong[:1] or 'a card whose column 6 / regularity is not tested'}", an)
     th = cards.len_threshold(role(an, "isShort"))
     ob("short card has no statement field", th == {-6}, "isShort = at most 6 characters", f"isShort thresholds {sorted(th)}", an)
     exprs = role(an, "isLong")
